@@ -15,6 +15,7 @@ import Sekai.Driver.Ante
 import Sekai.Driver.MultiStake
 import Sekai.Driver.GenesisCov
 import Sekai.Driver.Recovery
+import Sekai.Driver.Upgrade
 /-! `sekai-model`: the model side of the correspondence check. One op per input line
 (`<domain> <op> <args…>`), one canonical observation per output line. Core Lean only. -/
 open Sekai
@@ -33,6 +34,7 @@ structure World where
   ante : Driver.Ante.St := {}
   ms : Driver.MultiStake.St := {}
   recov : Driver.Recovery.St := {}
+  upg : Upgrade.St := {}
 
 def dispatch (w : World) (line : String) : World × String :=
   let toks := (line.trimAscii.toString.splitOn " ").filter (· ≠ "")
@@ -54,6 +56,7 @@ def dispatch (w : World) (line : String) : World × String :=
   | "ms" :: rest => let (s, o) := Driver.MultiStake.step w.ms rest; ({ w with ms := s }, o)
   | "gencov" :: rest => (w, Driver.GenesisCov.step rest)
   | "rec" :: rest => let (s, o) := Driver.Recovery.step w.recov rest; ({ w with recov := s }, o)
+  | "upg" :: rest => let (s, o) := Driver.Upgrade.step w.upg rest; ({ w with upg := s }, o)
   | ["reset"] => ({}, "ok")
   | [] => (w, "")
   | _ => (w, "bad-op")
